@@ -232,7 +232,7 @@ def validate_t1(groups_path, tcase, obs_paths, shards=8, timeout=3600, module="T
 
     def one(path):
         return run_tlc(module, T1_CFG, {"groups.ndjson": ("path", groups_path), "tcase.json": ("text", tc), obsname: ("path", path)},
-                       workers=1, timeout=timeout, heap="5g")
+                       workers=1, timeout=timeout, heap="3g")
     results = parallel(one, files, workers=min(12, len(files)))
     div, n, states, trans = [], 0, 0, 0
     for r, cnt in zip(results, counts):
